@@ -18,6 +18,17 @@ Theorem C11_identity_from_connection :
 Proof. exact identity_from_connection. Qed.
 Print Assumptions C11_identity_from_connection.
 
+(* "executed with the identity authenticated on the connection it arrived on": every row of the server's table (all handled
+   command bytes, C2C notify included) whose effect reads / changes client-owned state or reaches another client computes
+   its acting identity as conn_identity (the registry's binding of the connection at dispatch) — for every world, connection
+   class and claim; the remaining rows (public HTTP-domain reads, response sinks) touch no state and reach nobody at all *)
+Theorem C11_acting_identity_is_the_connections :
+  forall r, In r (current_table ++ [aux_row_current]) ->
+  (stateless (r_eff r) = false -> forall w k cl, acting r w k cl = conn_identity w k) /\
+  (stateless (r_eff r) = true -> forall p a w k c, exists b, run (r_eff r) p a w k c = mk b w).
+Proof. exact acting_is_connection_identity. Qed.
+Print Assumptions C11_acting_identity_is_the_connections.
+
 (* the same with command.SendNotifyToClientHandler (C2C notification; in the anchored files, not registered by the server
    today) added to the table *)
 Theorem C11_identity_from_connection_with_notify :
@@ -45,6 +56,27 @@ Theorem C11_unauth_refused_with_notify :
   res_world r = w /\ res_deliv r = [] /\ res_dm r = [] /\ res_dc r = [] /\ res_dd r = [].
 Proof. exact unauth_refused_notify. Qed.
 Print Assumptions C11_unauth_refused_with_notify.
+
+(* "refused", literally: the commands behind an explicit authentication gate (ConfigGet, connection codes, mapping
+   list/get/delete, HTTPDomainCreate, SOCKS5 tunnel request, C2C notify, traffic report) are answered with failure on a
+   connection that has proven no identity; the ungated ones (HTTPDomainList / HTTPDomainDelete / Disconnect) may answer
+   success although — by C11_unauth_refused — nothing happens and nothing is disclosed (witnesses below); the DNS requests
+   get an error answer written to the sender, the handler itself returns nil *)
+Theorem C11_unauth_answered_with_failure :
+  forall w k cl c, conn_identity w k = 0 -> In (k_type c) [50; 70; 71; 72; 74; 75; 76; 85; 90; 102; 110] ->
+  res_ok (exec (current_table ++ [aux_row_current]) w k cl c) = false.
+Proof. exact unauth_answered_with_failure. Qed.
+Print Assumptions C11_unauth_answered_with_failure.
+
+Theorem C11_ungated_rows_success_but_inert :
+  res_ok (exec current_table w_demo KUnknown 0 (c_demo 87 None None)) = true
+  /\ res_ok (exec current_table w_demo KFresh 0 (c_demo 86 (Some 999) None)) = true
+  /\ res_ok (exec current_table w_demo KPending 0 (c_demo 11 None None)) = true
+  /\ inert w_demo (exec current_table w_demo KUnknown 0 (c_demo 87 None None))
+  /\ inert w_demo (exec current_table w_demo KFresh 0 (c_demo 86 (Some 999) None))
+  /\ inert w_demo (exec current_table w_demo KPending 0 (c_demo 11 None None)).
+Proof. exact ungated_rows_success_but_inert. Qed.
+Print Assumptions C11_ungated_rows_success_but_inert.
 
 (* which connection classes prove nothing *)
 Theorem C11_unauthenticated_classes :
